@@ -699,3 +699,24 @@ proof fn lemma_untaken_do_not_cover(p: Seq<Result<Value, MergeError>>, cs: int, 
     reveal(sec_ok);
     let _ = p[k];
 }
+
+// ---------------- constructor shim ----------------
+spec fn streams(s: Seq<VIter>) -> Seq<Seq<Result<Value, MergeError>>> { Seq::new(s.len(), |i: int| s[i].rest()) }
+/// `sections.into_iter().map(|s| (s, None)).collect()`: every stream paired with an empty parking slot, in order
+#[verifier::external_body]
+fn pair_with_none(sections: Vec<VIter>) -> (r: Vec<(VIter, Option<Value>)>)
+    ensures r@.len() == sections@.len(), forall|i: int| 0 <= i < r@.len() ==> (#[trigger] r@[i]).0 == sections@[i] && r@[i].1 is None,
+{ unimplemented!() }
+proof fn lemma_initial_state(secs: Seq<(VIter, Option<Value>)>, ss: Seq<VIter>, limit: int)
+    requires secs.len() == ss.len(), forall|i: int| 0 <= i < secs.len() ==> (#[trigger] secs[i]).0 == ss[i] && secs[i].1 is None,
+    ensures
+        pends(secs) == streams(ss),
+        flat(Seq::<Win>::empty()) == Seq::<Value>::empty(),
+        stream_sorted(Seq::<Win>::empty(), 0), windows_ok(Seq::<Win>::empty()), chain_ok(Seq::<Win>::empty(), 0, pends(secs)),
+{
+    reveal_with_fuel(flat, 1); reveal(stream_sorted); reveal(sorted_in); reveal(windows_ok); reveal(chain_ok);
+    assert forall|i: int| 0 <= i < secs.len() implies pends(secs)[i] == streams(ss)[i] by {
+        assert(opt_seq(secs[i].1) + secs[i].0.rest() =~= ss[i].rest());
+    }
+    assert(pends(secs) =~= streams(ss));
+}
